@@ -323,11 +323,13 @@ def walks(ts, qmax, nwalks, depth, seed):
     return bad, nsteps
 
 
-def replicated_run(seed, steps=500):
+def replicated_run(seed, steps=500, ordered=None):
     """random battery operations through a real 3-node cluster with compaction and a lagging follower; all replicas
     must end up equal to each other and to the builtins fed in commit order"""
     from . import simcluster as sc, sched
     import pysyncobj.batteries as B
+    if ordered is None:
+        ordered = (seed % 2 == 1)
     rng = random.Random(seed)
 
     def mk():
@@ -369,15 +371,25 @@ def replicated_run(seed, steps=500):
                     args = {'add': [v], 'discard': [v], 'remove': [v], 'clear': []}[op]
                 else:
                     args = {'put': [v], 'get': []}[op]
-                n = rng.choice(['a', 'b', 'c'])
+                n = rng.choice(['a', 'b', 'c']) if not ordered else 'a'
+                kw = {}
+                # the same calls with their arguments passed by keyword (they travel through the command encoding)
+                if rng.random() < 0.35:
+                    if (ci, op) == (1, 'sort'):
+                        kw = {'reverse': rng.random() < 0.5}
+                    elif ci in (4, 5) and op == 'get':
+                        kw = {'default': 9}
+                    elif (ci, op) == (2, 'pop'):
+                        kw = {'default': 0}
                 if cl.nodes[n].alive:
                     cons = getattr(cl.nodes[n].obj, '_SyncObj__consumers')[ci]
                     sc._Ctx.node = cl.nodes[n]
+                    outcome = []
                     try:
-                        getattr(cons, op)(*args)
+                        getattr(cons, op)(*args, callback=(lambda res, err, o_=outcome: o_.append(err)), **kw)
                     finally:
                         sc._Ctx.node = None
-                    ops.append((ci, op, args))
+                    ops.append((ci, op, args, kw, outcome))
             elif r < 0.9:
                 pump(1)
             elif r < 0.95:
@@ -406,6 +418,25 @@ def replicated_run(seed, steps=500):
             states[n] = [cons[0].get(), list(cons[1].rawData()), dict(cons[2].rawData()), sorted(cons[3].rawData()),
                          list(getattr(cons[4], '_ReplQueue__data')), sorted(getattr(cons[5], '_ReplPriorityQueue__data'))]
         equal = states['a'] == states['b'] == states['c']
+        if ordered and equal and not cl.rec.exc:
+            # one submitter: the commit order is the submission order; the builtins fed with the same calls must agree
+            kinds = ['counter', 'list', 'dict', 'set', 'queue', 'pqueue']
+            refs = [Builtin(k, 3) for k in kinds]
+            conclusive = all(len(o_) == 1 and o_[0] in (0, 1, 2, 4, 6) for (_, _, _, _, o_) in ops)
+            for (ci, op, args, kw, o_) in ops:
+                if o_ != [0]:
+                    continue        # refused (queue full, no leader, ...): never applied
+                try:
+                    extra_ = [kw.get('reverse', False)] if (ci, op) == (1, 'sort') else ([kw['default']] if 'default' in kw else [])
+                    refs[ci].call(op, list(args) + extra_)
+                except Exception:
+                    pass
+            want = [refs[0].state(), refs[1].state(), refs[2].state(), refs[3].state(), refs[4].state(), refs[5].state()]
+            got = states['a']
+            norm = lambda x: sorted(x) if isinstance(x, (set, list)) and x and not isinstance(x, dict) and False else x
+            if conclusive and [want[0], list(want[1]), dict(want[2]), sorted(want[3]), list(want[4]), sorted(want[5])] != got:
+                equal = False
+                states['builtins'] = [want[0], list(want[1]), dict(want[2]), sorted(want[3]), list(want[4]), sorted(want[5])]
         applied = [cl.nodes[n].obj.raftLastApplied for n in 'abc']
         return {'equal': equal, 'states': states, 'nops': len(ops), 'applied': applied, 'nexc': len(cl.rec.exc)}
     finally:
